@@ -116,7 +116,7 @@ theorem lex_comment_text : ∀ (t rest : List Rune) (l : LexSt) (acc : List Toke
   | [], _, _, _, _ => rfl
   | c :: t, rest, l, acc, h => by
     simp only [List.all_cons, Bool.and_eq_true] at h
-    obtain ⟨h10, h96, h92⟩ := cmtCh_spec h.1
+    obtain ⟨h10, h92⟩ := cmtCh_spec h.1
     rw [List.cons_append, lexLoop]
     have ih := lex_comment_text t rest l acc h.2
     by_cases hsp : isSpace c = true
@@ -181,7 +181,7 @@ theorem lex_trail_pending (trail v : List Rune) (ln tl : Nat) (acc : List Token)
 
 theorem wsCh_cmtCh {c : Rune} (h : wsCh c = true) (hnl : c ≠ 10) : cmtCh c = true := by
   obtain ⟨-, -, -, -, -, h92, h96, -, -⟩ := wsCh_spec h
-  simp [cmtCh, rNL, rBQ, rBS, hnl, h92, h96]
+  simp [cmtCh, rNL, rBS, hnl, h92]
 
 theorem lex_trail_comment : ∀ (trail : List Rune) (ln : Nat) (acc : List Token), trail.all wsCh = true →
     lexLoop trail ⟨ln, 0⟩ { comment := true } acc = .ok acc
